@@ -15,6 +15,7 @@ import (
 	mctypes "github.com/elys-network/elys/x/masterchef/types"
 	oracletypes "github.com/elys-network/elys/x/oracle/types"
 	paramtypes "github.com/elys-network/elys/x/parameter/types"
+	perptypes "github.com/elys-network/elys/x/perpetual/types"
 )
 
 func specDefault(t *rapid.T) WorldSpec {
@@ -472,7 +473,7 @@ var ProfileC18Staking = func() *Profile {
 
 var ProfileC04 = &Profile{
 	MultiMsg: true,
-	ID:       "C04", Name: "swap-batch", MinBlocks: 4, MaxBlocks: 25, MaxTxs: 4, Spec: specDefault, Check: CheckC04, ExtraOps: c04ExtraOps,
+	ID:       "C04", Name: "swap-batch", MinBlocks: 4, MaxBlocks: 25, MaxTxs: 4, Spec: withSkew(specDefault), Check: CheckC04, ExtraOps: c04ExtraOps,
 	Weights: map[string]int{"amm.swap_in": 8, "amm.swap_out": 6, "amm.join": 4, "amm.exit": 3, "oracle.feed_price": 6, "perpetual.open": 3, "perpetual.close": 2, "stablestake.bond": 1, "amm.swap_in_2hop": 2, "amm.feed_external_liquidity": 2, "tier.set_portfolio": 2},
 	Gaps:    []time.Duration{time.Second, 5 * time.Second, 6 * time.Second},
 	Rule:    "history with >=2 accepted requests of one sender in a block, or an accepted request that was not executable at end-block (accepted but no balance effect), and >=1 two-hop request delivered to a passive recipient",
@@ -510,9 +511,72 @@ var ProfileC20 = &Profile{
 	},
 }
 
+// c10ExtraOps: "every successful open or consolidating re-open leaves the position healthy". Now and then the
+// price of a position's asset crashes and, in the same block (before any sweep can run), its owner re-opens on
+// top of it with a small collateral and leverage 1 (leveragelp) or 0 / just above 1 (perpetual) – an increment that borrows nothing and is harmless by itself.
+func c10ExtraOps(h *History, g *G) []*Op {
+	s := g.S
+	if g.Int("c10/reopen?", 0, 3) != 0 {
+		return nil
+	}
+	var ops []*Op
+	crash := func(denom string) {
+		cur := g.priceOf(denom)
+		if !cur.IsPositive() {
+			return
+		}
+		np := cur.MulInt64(int64(100 - g.Int("c10/crash", 10, 60))).QuoInt64(100)
+		f := h.W.Feeder
+		ops = append(ops, &Op{Signer: f, Kind: "c10.crash_feed", Msg: &oracletypes.MsgFeedPrice{Provider: f.Addr.String(),
+			FeedPrice: oracletypes.FeedPrice{Asset: displayOf(denom), Price: np, Source: "elys"}}})
+	}
+	if g.Bool("c10/lp") {
+		var cands []lptypes.Position
+		for _, p := range s.LPPositions {
+			if a := h.W.ByAddr[p.Address]; a != nil && !g.Busy[p.Address] {
+				cands = append(cands, p)
+			}
+		}
+		if len(cands) == 0 {
+			return nil
+		}
+		pos := cands[g.Pick("c10/lppos", len(cands))]
+		owner := h.W.ByAddr[pos.Address]
+		if pool := s.Pool(pos.AmmPoolId); pool != nil {
+			for _, a := range pool.PoolAssets {
+				if a.Token.Denom != paramtypes.BaseCurrency {
+					crash(a.Token.Denom)
+				}
+			}
+		}
+		g.Busy[pos.Address] = true
+		h.Labels["c10-crash-then-owner-reopen"]++
+		ops = append(ops, &Op{Signer: owner, Kind: "c10.lp_reopen_leverage1", Msg: &lptypes.MsgOpen{Creator: owner.Addr.String(), CollateralAsset: paramtypes.BaseCurrency,
+			CollateralAmount: sdkmath.NewInt(int64(g.Int("c10/topup", 1, 50_000_000))), AmmPoolId: pos.AmmPoolId, Leverage: sdkmath.LegacyOneDec(), StopLossPrice: sdkmath.LegacyZeroDec()}})
+		return ops
+	}
+	var cands []perptypes.MTP
+	for _, m := range s.MTPs {
+		if a := h.W.ByAddr[m.Address]; a != nil && !g.Busy[m.Address] && m.Position == perptypes.Position_LONG {
+			cands = append(cands, m)
+		}
+	}
+	if len(cands) == 0 {
+		return nil
+	}
+	m := cands[g.Pick("c10/mtp", len(cands))]
+	owner := h.W.ByAddr[m.Address]
+	crash(m.TradingAsset)
+	g.Busy[m.Address] = true
+	h.Labels["c10-crash-then-owner-reopen"]++
+	ops = append(ops, &Op{Signer: owner, Kind: "c10.perp_reopen_leverage1", Msg: &perptypes.MsgOpen{Creator: owner.Addr.String(), Position: m.Position, Leverage: []sdkmath.LegacyDec{sdkmath.LegacyZeroDec(), sdkmath.LegacyMustNewDecFromStr("1.1"), sdkmath.LegacyNewDec(2)}[g.Pick("c10/plev", 3)],
+		TradingAsset: m.TradingAsset, Collateral: sdk.NewCoin(m.CollateralAsset, sdkmath.NewInt(int64(g.Int("c10/ptopup", 1, 50_000_000)))), TakeProfitPrice: m.TakeProfitPrice, StopLossPrice: sdkmath.LegacyZeroDec(), PoolId: m.AmmPoolId}})
+	return ops
+}
+
 var ProfileC10 = &Profile{
 	MultiMsg: true,
-	ID:       "C10", Name: "forced-close", MinBlocks: 6, MaxBlocks: 40, MaxTxs: 5, Spec: specDefault, Check: CheckC10,
+	ID:       "C10", Name: "forced-close", MinBlocks: 6, MaxBlocks: 40, MaxTxs: 5, Spec: specLending, Check: CheckC10, ExtraOps: c10ExtraOps,
 	Weights: map[string]int{"stablestake.bond": 6, "leveragelp.open": 12, "leveragelp.close": 4, "leveragelp.close_positions": 8, "leveragelp.update_stop_loss": 3,
 		"perpetual.open": 14, "perpetual.close": 4, "perpetual.close_positions": 10, "perpetual.update_stop_loss": 3, "perpetual.update_take_profit": 2,
 		"oracle.feed_price": 12, "amm.swap_in": 4, "amm.swap_out": 2, "amm.join": 2, "amm.exit": 1},
